@@ -105,6 +105,36 @@ def reads_heap(e):
     return True
 
 
+def _ordered_names(node):
+    """Name nodes in evaluation-ish order: for an assignment the value before the targets."""
+    if isinstance(node, ast.Assign):
+        for x in _ordered_names(node.value):
+            yield x
+        for t in node.targets:
+            for x in _ordered_names(t):
+                yield x
+        return
+    if isinstance(node, ast.AugAssign):
+        for x in _ordered_names(node.target):
+            yield ast.Name(id=x.id, ctx=ast.Load()) if isinstance(x, ast.Name) else x
+        for x in _ordered_names(node.value):
+            yield x
+        return
+    if isinstance(node, (ast.For, ast.AsyncFor)):
+        for part in [node.iter, node.target] + node.body + node.orelse:
+            for x in _ordered_names(part):
+                yield x
+        return
+    if isinstance(node, ast.Name):
+        yield node
+        return
+    if isinstance(node, (ast.FunctionDef, ast.Lambda, ast.ClassDef)):
+        return
+    for c in ast.iter_child_nodes(node):
+        for x in _ordered_names(c):
+            yield x
+
+
 class P(Path):
     __slots__ = ("k",)
 
@@ -119,9 +149,28 @@ class P(Path):
 
 
 class NF(object):
-    def __init__(self, stmts, final_names=(), max_paths=400):
+    def __init__(self, stmts, final_names=(), max_paths=400, live_after=()):
         self.stmts = stmts
         self.final_names = list(final_names)
+        self.live_after = set(live_after)       # names read by whatever runs after the region
+        # boolean flags: names every assignment of which (in the region) is True / False
+        vals = {}
+        for n in _walk_in_order(stmts):
+            for x in ast.walk(n) if not isinstance(n, (ast.If, ast.For, ast.While, ast.Try, ast.With)) else []:
+                if isinstance(x, ast.Assign):
+                    for t in x.targets:
+                        for y in ast.walk(t):
+                            if isinstance(y, ast.Name):
+                                vals.setdefault(y.id, []).append(isinstance(t, ast.Name) and isinstance(x.value, ast.Constant) and isinstance(x.value.value, bool))
+                elif isinstance(x, (ast.AugAssign, ast.NamedExpr)):
+                    for y in ast.walk(x.target):
+                        if isinstance(y, ast.Name):
+                            vals.setdefault(y.id, []).append(False)
+            if isinstance(n, (ast.For, ast.AsyncFor)):
+                for y in ast.walk(n.target):
+                    if isinstance(y, ast.Name):
+                        vals.setdefault(y.id, []).append(False)
+        self.flag_names = set(k for k, v in vals.items() if v and all(v))
         self.max_paths = max_paths
         self.done = []
         self.n_live = 0
@@ -448,7 +497,17 @@ class NF(object):
             self.bind(p, target.id, value)
         elif isinstance(target, (ast.Tuple, ast.List)):
             if isinstance(value, (ast.Tuple, ast.List)) and len(value.elts) == len(target.elts) and not any(isinstance(t, ast.Starred) for t in target.elts):
-                for t, v in zip(target.elts, value.elts):
+                vals = list(value.elts)
+                if any(not isinstance(t, ast.Name) for t in target.elts):
+                    # the right-hand side is evaluated completely before the first store: values that read the heap are
+                    # named now, so that a store made by an earlier element cannot change what a later element means
+                    for i, v in enumerate(vals):
+                        if reads_heap(v):
+                            p.k += 1
+                            nm = "$%d" % p.k
+                            p.effects.append(("let", nm, v))
+                            vals[i] = ast.Name(id=nm, ctx=ast.Load())
+                for t, v in zip(target.elts, vals):
                     self.assign(p, t, v)
             else:
                 for i, t in enumerate(target.elts):
@@ -662,10 +721,27 @@ class NF(object):
             return self.loop(st, p)
         raise Unsupported("statement %s" % type(st).__name__)
 
+    @staticmethod
+    def _first_use_is_load(st, nm):
+        """In one iteration (header, then body in text order) is `nm` read before it is assigned?"""
+        order = []
+        if isinstance(st, ast.While):
+            order.append(st.test)
+        else:
+            order.append(st.target)
+        order.extend(st.body)
+        for part in order:
+            for x in _ordered_names(part):
+                if x.id == nm:
+                    return isinstance(x.ctx, ast.Load)
+        return False
+
     def loop(self, st, p0):
         k = self.ordinal.get(id(st), 0)
         is_while = isinstance(st, ast.While)
         names = sorted(_assigned([st]))
+        carried = set(nm for nm in names if self._first_use_is_load(st, nm) or nm in self.final_names or nm in self.live_after)
+        flags = self.flag_names
         starts = [(p0, None)] if is_while else self.ev(p0, st.iter)
         out_all = []
         for p, it in starts:
@@ -679,7 +755,7 @@ class NF(object):
                 p.effects.append(("for", "#%d %s" % (k, src(it)), st))
             for nm in names:
                 v = pre[nm]
-                if not (isinstance(v, ast.Name) and v.id == nm):
+                if nm in carried and not (isinstance(v, ast.Name) and v.id == nm):
                     p.effects.append(("enter-loop", nm, v))       # value the first iteration starts from
                 p.env[nm] = ast.Name(id="%s@loop%d" % (nm, k), ctx=ast.Load())
                 p.frozen.pop(nm, None)
@@ -717,6 +793,13 @@ class NF(object):
                     self.done.append(q)
             for q in cont + broke:
                 for nm in names:
+                    if nm not in carried:
+                        q.frozen.pop(nm, None)
+                        continue        # redefined before it is read again: what it ends an iteration with is dead
+                    v0 = q.env.get(nm)
+                    if nm in flags and isinstance(v0, ast.Constant) and isinstance(v0.value, bool) and \
+                            (atom(ast.Name(id="%s@loop%d" % (nm, k), ctx=ast.Load()), v0.value) in q.conds):
+                        continue        # a boolean flag set to the value it already has
                     if nm in q.frozen and not isinstance(q.frozen[nm], IDENTITY):
                         q.effects.append(("carry", nm, q.frozen.pop(nm)))      # computed before the heap changed, handed on as it is
                         continue
